@@ -6,6 +6,7 @@ import (
 	"math/big"
 	"sort"
 	"sync"
+	"time"
 
 	"github.com/bartossh/Computantis/src/accountant"
 	"github.com/bartossh/Computantis/src/spice"
@@ -93,6 +94,16 @@ func RunLong(w *World, o LongOpts) error {
 	if err != nil {
 		return err
 	}
+	var racer *Actor
+	if o.Race && o.Size > 400 {
+		// the racer is funded first of all, so that its receipt is certainly below any later cut
+		racer = NewActor("RC")
+		w.Extra = append(w.Extra, racer)
+		w.Keys[racer.Addr] = racer.W.Public
+		t := w.NewTrx(w.Users[0], racer.Addr, spice.Melange{Currency: 9}, nil)
+		d.proposeOn(w.Nodes[0], &t, "fund racer")
+		d.flushAll()
+	}
 	// funding
 	for i := 1; i < len(w.Users); i++ {
 		t := w.NewTrx(w.Users[0], w.Users[i].Addr, spice.Melange{Currency: 150}, nil)
@@ -110,7 +121,19 @@ func RunLong(w *World, o LongOpts) error {
 		d.proposeOn(w.Nodes[0], &t, "fund drainer")
 		d.flushAll()
 	}
-	d.grow(o.Size, 250)
+	if racer != nil {
+		// the racer spends everything 300 vertices before the truncation (above the cut); at truncation time it holds
+		// nothing, and a tentative overdrawing tip of its own is waiting to be validated
+		d.grow(o.Size-300, 250)
+		if b, err := w.Nodes[0].Book.CalculateBalance(w.Ctx, racer.Addr); err == nil {
+			st := w.NewTrx(racer, w.Users[0].Addr, b.Spice, nil)
+			d.proposeOn(w.Nodes[0], &st, "racer spends everything")
+			d.flushAll()
+		}
+		d.grow(300, 250)
+	} else {
+		d.grow(o.Size, 250)
+	}
 	var lastDrain H
 	for k := 0; k < o.Truncations; k++ {
 		if k > 0 {
@@ -134,6 +157,10 @@ func RunLong(w *World, o LongOpts) error {
 		for _, n := range w.Nodes {
 			if k > 0 && n.Idx > 0 {
 				continue // further truncations only on node 0 (keeps the cost bounded)
+			}
+			if racer != nil && n.Idx == 0 && k == 0 {
+				ot := w.NewTrx(racer, w.Users[1].Addr, spice.Melange{Currency: 9}, nil)
+				d.proposeOn(n, &ot, "racer's overdrawing tentative tip")
 			}
 			w.TruncateChecked(n, d, o.Race && n.Idx == 0)
 		}
@@ -221,15 +248,19 @@ func (w *World) TruncateChecked(n *Node, d *Driver, race bool) {
 	var wg sync.WaitGroup
 	raced := 0
 	var racedVs []accountant.Vertex
+	raceStart := make(chan struct{})
 	if race {
 		var mu sync.Mutex
-		for g := 0; g < 3; g++ {
+		for g := 0; g < 6; g++ {
 			wg.Add(1)
 			g := g
 			go func() {
 				defer wg.Done()
+				// arrive while the truncation is under way (not before it took its lock)
+				<-raceStart
+				time.Sleep(time.Duration(300+200*g) * time.Microsecond)
 				for i := 0; i < 4; i++ {
-					t := ForgeTrx(w.Users[0], w.Users[1+g].Addr, fmt.Sprintf("race-%d-%d-%d", len(w.Trace), g, i), nil, spice.Melange{SupplementaryCurrency: uint64(1 + i)}, w.clock.Add(-1))
+					t := ForgeTrx(w.Users[0], w.Users[1+g%3].Addr, fmt.Sprintf("race-%d-%d-%d", len(w.Trace), g, i), nil, spice.Melange{SupplementaryCurrency: uint64(1 + i)}, w.clock.Add(-1))
 					v, err := n.Book.CreateLeaf(w.Ctx, &t)
 					if err == nil {
 						w.Hist.Add(&v)
@@ -242,8 +273,10 @@ func (w *World) TruncateChecked(n *Node, d *Driver, race bool) {
 			}()
 		}
 	}
+	close(raceStart)
 	err := n.Book.VerifTruncate(w.Ctx)
 	wg.Wait()
+	w.TruncatedOnce = true
 	for i := range racedVs {
 		d.noteSealed(&racedVs[i])
 		d.enqueue(n, &racedVs[i])
@@ -322,6 +355,9 @@ func (w *World) TruncateChecked(n *Node, d *Driver, race bool) {
 	for h := range before.Live {
 		_, live := after.Live[h]
 		_, st := after.Stored[h]
+		if !live && !st && before.Leaves[h] && race {
+			continue // a tentative tip dropped as invalid by a proposal that raced with the truncation
+		}
 		if !live && !st {
 			w.Violate("C07", "vertex-lost", fmt.Sprintf("node %s: vertex %s left the live DAG during truncation without being checkpointed", n.Name, Hex(h)))
 		}
@@ -380,6 +416,7 @@ func (w *World) TruncateChecked(n *Node, d *Driver, race bool) {
 
 	// (2) every vertex and transaction ever seen confirmed stays retrievable with identical content
 	checked := 0
+	var heldGot, heldRef *accountant.Vertex
 	for h := range n.Seen {
 		ref, ok := w.Hist.Get(h)
 		if !ok {
@@ -390,6 +427,12 @@ func (w *World) TruncateChecked(n *Node, d *Driver, race bool) {
 			w.Violate("C07", "confirmed-vertex-not-retrievable", fmt.Sprintf("node %s: confirmed vertex %s cannot be read by hash after truncation: %v", n.Name, Hex(h), err))
 			continue
 		}
+		// the result of the previous lookup must not be changed by this one (results may be used while others are read)
+		if heldGot != nil && Fingerprint(heldGot) != Fingerprint(heldRef) {
+			w.Violate("C07", "retrieved-vertex-changed-by-a-later-read", fmt.Sprintf("node %s: vertex %s was read back intact, but its content changed after the next vertex was read by hash (%s)", n.Name, Hex(heldRef.Hash), diffVertex(heldRef, heldGot)))
+		}
+		gc := got
+		heldGot, heldRef = &gc, ref
 		if Fingerprint(&got) != Fingerprint(ref) {
 			w.Violate("C07", "retrieved-vertex-differs", fmt.Sprintf("node %s: vertex %s read by hash differs from the original (%s)", n.Name, Hex(h), diffVertex(ref, &got)))
 		} else if why := w.verified(n, &got); why != "" {
